@@ -34,8 +34,9 @@ func union(names ...string) M {
 
 // ExtType describes one extension type.
 type ExtType struct {
-	Name    string
-	Parents []string
+	Name     string
+	Parents  []string
+	Disjoint []string // declared disjointWith (own or as: types)
 }
 
 // ExtProp describes one extension property.
@@ -64,7 +65,11 @@ func (v ExtVocab) JSON() []byte {
 	}
 	members := L{}
 	for _, t := range v.Types {
-		m := M{"id": extURI + "#" + t.Name, "type": "owl:Class", "name": t.Name, "url": extURI + "#dfn-" + t.Name, "disjointWith": L{}}
+		dj := L{}
+		for _, d := range t.Disjoint {
+			dj = append(dj, classRef(d))
+		}
+		m := M{"id": extURI + "#" + t.Name, "type": "owl:Class", "name": t.Name, "url": extURI + "#dfn-" + t.Name, "disjointWith": dj}
 		ps := L{}
 		for _, p := range t.Parents {
 			ps = append(ps, classRef(p))
@@ -98,14 +103,16 @@ func (v ExtVocab) JSON() []byte {
 }
 
 var extTypes = []ExtType{
-	{"Alpha", []string{"as:Object"}},
-	{"Beta", []string{"Alpha"}},
-	{"Gamma", []string{"as:Activity"}},
-	{"Delta", []string{"Beta"}}, // two levels below Alpha
-	{"Epsilon", []string{"as:Note", "Alpha"}}, // multiple parents
-	{"Zeta", []string{"as:Link"}},
-	{"Eta", []string{"as:Collection"}},
-	{"Theta", []string{"Delta"}}, // three levels below Alpha
+	{"Alpha", []string{"as:Object"}, nil},
+	{"Beta", []string{"Alpha"}, nil},
+	{"Gamma", []string{"as:Activity"}, nil},
+	{"Delta", []string{"Beta"}, nil},               // two levels below Alpha
+	{"Epsilon", []string{"as:Note", "Alpha"}, nil}, // multiple parents
+	{"Zeta", []string{"as:Link"}, nil},
+	{"Eta", []string{"as:Collection"}, nil},
+	{"Theta", []string{"Delta"}, nil},                           // three levels below Alpha
+	{"Iota", []string{"as:Object"}, []string{"as:Activity"}},    // disjoint with a type of the referenced vocabulary
+	{"Kappa", []string{"Alpha"}, []string{"Gamma", "as:Place"}}, // disjoint with an own type and a foreign one
 }
 
 var extDomains = [][]string{{"as:Object"}, {"Alpha"}, {"as:Link", "Alpha"}, {"Alpha", "as:Note"}, {"Gamma", "Zeta"}}
@@ -149,10 +156,13 @@ func MinimalVocabs() []ExtVocab {
 					for _, p := range x.Parents {
 						add(p)
 					}
+					for _, p := range x.Disjoint {
+						add(p)
+					}
 				}
 			}
 		}
-		for _, p := range t.Parents {
+		for _, p := range append(append([]string(nil), t.Parents...), t.Disjoint...) {
 			add(p)
 		}
 		for _, x := range extTypes {
